@@ -711,6 +711,7 @@ def _byte_guard(body):
 
 
 # ==== dispatch probing with the partial evaluator ========================================================================
+from peval import UNIT as UNIT_
 from peval import PE, Sym, Adt, Tup, Undecided, ok as pe_ok, err as pe_err, NONE as PE_NONE, UNIT as PE_UNIT, vkey as vkey_
 from r_pe import result_kind, unwrap_common
 
@@ -1057,6 +1058,86 @@ def _whole_block(F, fid, id_byte, plen):
     return k, reads
 
 
+def _carried(v):
+    """The stored value is what was read (a read symbol, the fixed integer / byte the evaluation feeds in, a validated wrapper of
+    it), possibly inside Some(..), a newtype or a pushed (name, value) record -- not an arithmetic / call term over it."""
+    if isinstance(v, Adt):
+        if v.adt == "core::option::Option":
+            return v.variant == "Some" and _carried(v.fields.get("0"))
+        return all(_carried(x) for x in v.fields.values()) if v.fields else True
+    if isinstance(v, Tup):
+        return all(_carried(x) for x in v.items)
+    if isinstance(v, bool) or isinstance(v, int):
+        return v in (0, 1, 5, 7, False, True)
+    if isinstance(v, Sym):
+        t = v.tag
+        return isinstance(t, tuple) and len(t) == 2 and t[0] in ("read", "validated") and not (isinstance(t[1], tuple))
+    return False
+
+
+def t_props_encvalues(F, R):
+    """Each property-set encoder evaluated as a whole function on sets with exactly one field filled in: after the length prefix
+    it writes the property's identifier byte and then the field's value as it is (an integer / string / binary symbol unchanged,
+    true as 1, a QoS as its level)."""
+    discr, ents = _analyse(F)
+    n = 0
+    for ent in ents:
+        fid = ent["encode"]
+        a = F.adts[ent["path"]]
+        for fld in a["variants"][0]["fields"]:
+            ty = fld["ty"]
+            if not ty.startswith("core::option::Option<"):
+                continue
+            inner = ty[len("core::option::Option<"):-1]
+            sym = Sym(("field", fld["name"]))
+            if inner == "bool":
+                val, want = True, [1]
+            elif inner == "common::types::QoS":
+                val, want = Adt("common::types::QoS", "Level1"), [1]
+            elif inner == "v5::types::VarByteInt":
+                val, want = Adt(inner, "VarByteInt", {"0": sym}), [sym]
+            else:
+                val, want = sym, [sym]
+            fields = {}
+            for g in a["variants"][0]["fields"]:
+                fields[g["name"]] = Adt("core::option::Option", "None") if g["ty"].startswith("core::option::Option<") else Tup([])
+            fields[fld["name"]] = Adt("core::option::Option", "Some", {"0": val})
+            trace = []
+
+            def hook(d, res, args, node, env):
+                r = res or d
+                name = node["fn"].get("name")
+                if r in ("common::utils::write_u8", "common::utils::write_u16", "common::utils::write_u32", "common::utils::write_bytes", "common::utils::write_var_int"):
+                    trace.append((r.rsplit("::", 1)[1], args[1]))
+                    return pe_ok(UNIT_)
+                if r == "common::utils::var_int_len":
+                    return pe_ok(1)
+                if name in ("len",) and len(args) == 1 and isinstance(args[0], Sym):
+                    return 3
+                if name in ("as_bytes", "as_ref", "as_str", "deref", "borrow", "value", "clone") and len(args) == 1 and r not in F.fns:
+                    return args[0]
+                return None
+            try:
+                r = PE(F, call_hook=hook, cond_hook=lambda what, node: True if what[0] == "try-ok" else None, fuel=4000).call_fn(
+                    fid, [Adt(ent["path"], ent["path"].rsplit("::", 1)[1], fields), Sym("WRITER")])
+            except Undecided as e:
+                R.fail("T-propid", "%s/%s/encode-value/undecided" % (ent["name"], fld["name"]), "%s cannot be evaluated with only %s set: %s" % (fid, fld["name"], str(e)[:160]), where=fid)
+                continue
+            n += 1
+            # [var-int length] [u8 id] value...
+            body = [t for t in trace if t[0] != "write_var_int" or trace.index(t) > 0]
+            vals = [t[1] for t in body[1:]] if body and body[0][0] == "write_u8" and isinstance(body[0][1], int) else None
+            def uncast(x):
+                while isinstance(x, Sym) and isinstance(x.tag, tuple) and len(x.tag) == 3 and x.tag[0] == "cast" and x.tag[2] in ("usize", "u64", "u32"):
+                    x = Sym(x.tag[1])         # a widening cast carries the value
+                return x
+            good = vals is not None and [vkey_(uncast(x)) for x in vals] == [vkey_(x) for x in want]
+            R.check(good, "T-propid", "%s/%s/encode-value" % (ent["name"], fld["name"]),
+                    "%s with only `%s` set writes %s (expected: the length prefix, the identifier byte, then the value as it is: %s)" % (
+                        ent["name"], fld["name"], [(t[0], t[1]) for t in trace][:5], want), where=fid)
+    R.floor("T-propid", "(set, field) encode evaluations", n, 40)
+
+
 def t_props_whole(F, R):
     """Each property-set decoder evaluated as a whole function -- whatever sits before, inside or after its loop -- on blocks
     holding exactly one allowed property: the result is Ok(set) with exactly that one field filled in and every other field at
@@ -1088,6 +1169,13 @@ def t_props_whole(F, R):
             if good:
                 changed = [f for f in base.fields if vkey_(got[1].fields.get(f)) != vkey_(base.fields[f])]
                 good = len(changed) == 1 and rd == tab[v]["reads"]
+            if good:
+                val = got[1].fields.get(changed[0])
+                good = _carried(val)
+                if not good:
+                    R.fail("T-props", "%s/whole/%s/value" % (ent["name"], v),
+                           "%s: the %s it stores is %r -- a function of the value read, not the value" % (ent["name"], v, val), where=fid)
+                    continue
             R.check(good, "T-props", "%s/whole/%s" % (ent["name"], v),
                     "%s on a block holding exactly one %s (%d bytes) gives %s, fields changed %s, reads %s (expected Ok with exactly one field "
                     "filled in after reads %s)" % (ent["name"], v, size, repr(got)[:160], changed, rd, tab[v]["reads"]), where=fid)
